@@ -38,9 +38,15 @@ static void
 check(nng_socket req, int sfd, const char *when, int *agree)
 {
 	sim_quiesce(3000000);
+	uint64_t st0 = sim_stall_total_ns();
 	int      wr = simnet_poll_in(sfd);
 	nng_msg *m  = tag_msg(40, 1, 0, 77);
 	int      sv = nng_sendmsg(req, m, NNG_FLAG_NONBLOCK);
+	if (sim_stall_total_ns() != st0) {
+		// stalled inside the call (possibly past the quiescence horizon): the premise is gone, nothing is judged
+		sim_probe("c15_stalled_inside_call");
+		wr = -1;
+	}
 	sim_event("%s: send fd=%d -> %d", when, wr, sv);
 	if (sv != 0)
 		nng_msg_free(m);
